@@ -23,6 +23,17 @@ func sanCase(text string) []string { return []string{encStr(text), encBytes([]by
 
 const pwMarkers = "ZqXjQzJx79"
 
+// allMarkers: the fragment consists of marker characters only (none of which occurs in the
+// fixed text of the two printers).
+func allMarkers(w string) bool {
+	for _, c := range w {
+		if !strings.ContainsRune(pwMarkers, c) {
+			return false
+		}
+	}
+	return w != ""
+}
+
 func randMarker(r *rand.Rand, lo, hi int) string {
 	n := lo + r.Intn(hi-lo+1)
 	b := make([]byte, n)
@@ -470,7 +481,7 @@ func propSanitizeText(args []string) string {
 		pw := []rune(a.passwords[k])
 		for i := 0; i+3 <= len(pw); i++ {
 			w := string(pw[i : i+3])
-			if strings.ContainsAny(w, pwMarkers) && strings.Contains(a.strings_[k], w) && !strings.Contains(a.clauses[k].name.lit, w) {
+			if allMarkers(w) && strings.Contains(a.strings_[k], w) && !strings.Contains(a.clauses[k].name.lit, w) {
 				return fmt.Sprintf("String() = %q contains the password fragment %q", a.strings_[k], w)
 			}
 		}
@@ -607,7 +618,7 @@ func propSanitizePrint(args []string) string {
 	rs := []rune(pw)
 	for i := 0; i+3 <= len(rs); i++ {
 		w := string(rs[i : i+3])
-		if strings.ContainsAny(w, pwMarkers) && strings.Contains(out, w) && !strings.Contains(name, w) {
+		if allMarkers(w) && strings.Contains(out, w) && !strings.Contains(name, w) {
 			return fmt.Sprintf("String() = %q contains the password fragment %q", out, w)
 		}
 	}
